@@ -68,15 +68,11 @@ def intWidth (o : Nat) : Nat := if o = Oid.int2 then 2 else if o = Oid.int4 then
 def beInt (width : Nat) (i : Int) : Bytes :=
   if width = 2 then be16 (toU16 i) else if width = 4 then be32 (toU32 i) else be64 (toU64 i)
 
-/-- `pgtype.Map.Encode(oid, format, value, buf)` -/
-def encodeVal (o : Nat) (fmt : Nat) (v : Val) : EncRes :=
-  match v with
+/-- the per-type encode plans, once the format code and the column type are accepted -/
+def encodeTyped (o : Nat) (fmt : Nat) : Val → EncRes
   | .null => .ok none
-  | _ =>
-  if fmt ≠ 0 ∧ fmt ≠ 1 then .panic fmt
-  else if !supportedOid o then .unsupported
-  else match v with
-  | .null | .tnull | .invalid => .ok none
+  | .tnull => .ok none
+  | .invalid => .ok none
   | .junk => .err
   | .bool b =>
     if o = Oid.bool then
@@ -100,6 +96,14 @@ def encodeVal (o : Nat) (fmt : Nat) (v : Val) : EncRes :=
   | .f4 bits => if o = Oid.float4 then (if fmt = 1 then .ok (some (be32 bits)) else .unsupported) else .err
   | .f8 bits => if o = Oid.float8 then (if fmt = 1 then .ok (some (be64 bits)) else .unsupported) else .err
 
+/-- `pgtype.Map.Encode(oid, format, value, buf)`: an untyped nil is NULL before anything else is
+    looked at; then the format code indexes the plan array (panic outside {0,1}) -/
+def encodeVal (o : Nat) (fmt : Nat) (v : Val) : EncRes :=
+  if v = .null then .ok none
+  else if fmt ≠ 0 ∧ fmt ≠ 1 then .panic fmt
+  else if !supportedOid o then .unsupported
+  else encodeTyped o fmt v
+
 inductive DecRes where
   | ok (v : Val)      -- `Val.null` for a nil source (NULL)
   | err
@@ -113,16 +117,19 @@ def parseDigits : Bytes → Option Nat
       | none => none
       | some n => if 48 ≤ d.toNat ∧ d.toNat ≤ 57 then some (n * 10 + (d.toNat - 48)) else none) (some 0)
 
+def splitSign : Bytes → Bool × Bytes
+  | 43 :: r => (false, r)
+  | 45 :: r => (true, r)
+  | r => (false, r)
+
+def signed (neg : Bool) (n : Nat) : Int := if neg then -(n : Int) else n
+
 def parseIntText (s : Bytes) (lo hi : Int) : Option Int :=
-  let (neg, ds) := match s with
-    | 43 :: r => (false, r)
-    | 45 :: r => (true, r)
-    | r => (false, r)
-  match parseDigits ds with
+  match parseDigits (splitSign s).2 with
   | none => none
   | some n =>
-    let i : Int := if neg then -(n : Int) else n
-    if i < lo ∨ i > hi then none else some i
+    if signed (splitSign s).1 n < lo ∨ signed (splitSign s).1 n > hi then none
+    else some (signed (splitSign s).1 n)
 
 /-- `Codec.DecodeValue(m, oid, format, src)`; `src = none` is a nil slice -/
 def decodeVal (o : Nat) (fmt : Nat) (src : Option Bytes) : DecRes :=
